@@ -7,23 +7,29 @@ TITLE = 'A compiled trust schema matches exactly the names its source text descr
 LEAN_TARGETS = ['NdnProofs.Props.C11']
 THEOREMS = [
     'Ndn.C11.matchIter_eq_matchTree', 'Ndn.C11.matchIter_no_exception', 'Ndn.C11.matchTree_sound', 'Ndn.C11.matchIter_sound',
-    'Ndn.C11.matchTree_iff_Sem', 'Ndn.C11.compile_correct_partial', 'Ndn.C11.matchNames_spec',
+    'Ndn.C11.matchTree_iff_Sem', 'Ndn.C11.compile_correct_partial', 'Ndn.C11.compiled_match_iff', 'Ndn.C11.compiled_vdet',
+    'Ndn.C11.matchNames_spec',
 ]
 PARTIAL = {
     'Ndn.C11.compile_correct_partial':
-        'compile_correct (source semantics of lvs.rst = semantics of the compiled tree) is NOT proved: the compiler passes '
-        '(rule sorting, pattern numbering, DNF replication / reference inlining, node merging, signer resolution) are not '
-        'modelled in Lean. Proved instead, for every model that passes the loader: the iterative checker reports (node, bindings) '
-        'iff the name matches that node in the path semantics of the compiled tree. The compiler is tied on every run by '
-        'correspondence: real compile_lvs -> real binary encoder/decoder -> node pool fed to the Lean matcher, results compared with '
-        'the real Checker and with an independent Python transcription of the source-level semantics used as oracle.',
+        'compile_correct (source semantics of lvs.rst = semantics of the compiled tree) is NOT proved. The compiler passes ARE '
+        'modelled in Lean (NdnModel/Lvs/{Ast,Compile}.lean: rule sorting with top_order, pattern numbering, DNF replication / '
+        'reference inlining with fresh temporaries, node merging by pattern_movement keys, signer resolution) and the model is tied '
+        'to compile_lvs on every run by differential execution (schema AST -> Lean compiler -> node pool compared with the real '
+        'compiler\'s pool: exactly, or in a canonical form if they differ only in the numbering of nodes/tags). Proved about the '
+        'compiler model: its output on every AST the parser can produce is Sane and VDet, so the checker theorems apply to it without '
+        'further hypotheses (compiled_match_iff). Proved for every model that passes the loader: the iterative checker reports '
+        '(node, bindings) iff the name matches that node in the path semantics of the compiled tree. Still resting on the '
+        'correspondence run and on the source-level oracle (an independent Python transcription of lvs.rst): the three semantic '
+        'layers numbering / replication / node merging preserve the source semantics.',
 }
 TRUSTED = [
     'C11: the theorems are at the compiled-model level; source text -> model is covered by the oracle (a Python transcription of '
     'docs/src/lvs/lvs.rst: references expanded with fresh temporaries per occurrence, constraint sets / repeated definitions as '
     'alternatives, constraints of a pattern evaluated at its first occurrence against the bindings made so far)',
     'C11: save/load is the TLV codec (C08); the harness compares the model object and the match results before and after',
-    'C11: lark (text -> AST) and the pretty-printer of the schema generator',
+    'C11: lark (text -> AST) and the pretty-printer of the schema generator; the Lean compiler model receives the AST the '
+    'generator pretty-prints (literal components as the bytes Component.from_str gives)',
 ]
 RULE = ('generated schemas (rule references incl. the same rule twice in one name, nested references, redefinitions, temporary rules '
         'and patterns, constraints on temporaries / inherited named patterns / patterns of other rules, multi-option and multi-set '
@@ -86,9 +92,16 @@ def run_impl(case):
     Component, Name, compile_lvs, Checker, SemanticError, LvsModelError, DFN, bny = L.mods()
     fns = L.user_fns(L.FN_NAMES)
     spec = L.Spec(case['schema'], fns)
-    res = {'token': None}
+    res = {'token': None, 'ctoken': None, 'symbols': None}
     try:
         model = compile_lvs(L.pp(case['schema']))
+    except Exception as e:              # noqa
+        res['compile'] = res['build'] = type(e).__name__
+        return res
+    res['compile'] = 'ok'
+    res['ctoken'] = L.enc_model(model)          # the node pool as it leaves the compiler
+    res['symbols'] = L.enc_symbols(model)
+    try:
         ck = Checker(model, fns)
         ck2 = Checker.load(ck.save(), fns)
     except Exception as e:              # noqa
@@ -126,26 +139,46 @@ def run_impl(case):
 
 
 def model_line(case, impl):
-    if impl.get('token') is None:
-        return None
+    # the Lean side starts from the schema AST: compiler model -> loader model -> matcher model
     names = [L.name_bytes(n, case['digest']) for n in case['names']]
-    return 'C11 mmatch %s %s %s' % (impl['token'], L.enc_env(L.FN_NAMES), '/'.join(L.enc_name(n) for n in names))
+    return 'C11 cfull %s %s %s' % (L.enc_schema(case['schema']), L.enc_env(L.FN_NAMES), '/'.join(L.enc_name(n) for n in names))
 
 
 def model_obs(answer, case, impl):
-    assert answer.startswith('ok '), answer[:100]
+    parts = answer.split(' ')
+    if parts[0] == 'cerr':
+        return {'compile': parts[1]}
+    assert parts[0] == 'ok' and len(parts) >= 4, answer[:100]
+    # identical node pools: everything is compared exactly (incl. the order of the matches); pools that are
+    # equal only up to the numbering of nodes / tags: canonical forms and sorted match lists
+    exact = parts[1] == impl['ctoken'] and parts[2] == impl['symbols']
+    impl['_exact'] = exact
+    obs = {'compile': 'ok', 'node_pool': parts[1] if exact else L.canon_pool(parts[1], parts[2]),
+           'symbols': parts[2] if exact else ','.join(sorted(parts[2].split(',')))}
+    if parts[3] != 'accepted':
+        obs['build'] = parts[3]
+        return obs
+    obs['build'] = 'ok'
     out = []
-    for r in answer[3:].split('/'):
+    for r in parts[4].split('/'):
         if r.startswith('E~'):
             out.append([[], r[2:]])
             continue
         pm = L.parse_match_answer(r)
         out.append([[[o[0], o[2]] for o in pm['outs']], pm['err'] if pm['halted'] else 'NONTERMINATION'])
-    return out
+    obs['matches'] = out if exact else L.canon_matches(out, parts[2])
+    return obs
 
 
 def impl_obs(impl):
-    return impl.get('matches')
+    if impl['compile'] != 'ok':
+        return {'compile': impl['compile']}
+    exact = impl.get('_exact', True)
+    obs = {'compile': 'ok', 'node_pool': impl['ctoken'] if exact else L.canon_pool(impl['ctoken'], impl['symbols']),
+           'symbols': impl['symbols'] if exact else ','.join(sorted(impl['symbols'].split(','))), 'build': impl['build']}
+    if impl['build'] == 'ok':
+        obs['matches'] = impl['matches'] if exact else L.canon_matches(impl['matches'], impl['symbols'])
+    return obs
 
 
 def _uses_eqtype_pattern(schema):
@@ -207,10 +240,13 @@ def finding_key(case, impl, why):
 LEVEL_TEXT = ('Lean 4 theorems over a hand-written model of Checker._match/match on the binary model tree: the iterative back-tracking '
               'search (explicit stacks) yields exactly the list computed by structural recursion on the name, which is sound and '
               'complete w.r.t. a path semantics of the compiled tree (value edge equal; pattern edge: unbound tag binds, bound tag must '
-              'repeat, every CNF constraint has an option holding under the bindings so far). The compiler is NOT modelled: source text '
-              '= compiled tree is tied on every run by differential execution (real compiler + real binary codec -> Lean matcher vs real '
-              'checker) and by a source-level oracle transcribed from docs/src/lvs/lvs.rst.')
-LEVEL_NOTE = ('compile_correct is not proved (named compile_correct_partial); the theorems are at the compiled-model level. '
-              'Proof is about the model; model=code is sampled.')
+              'repeat, every CNF constraint has an option holding under the bindings so far). The compiler is modelled too (the passes of '
+              'compiler.py as written, AST -> node pool) and proved to emit only Sane, VDet models, so these theorems apply to compiler '
+              'output unconditionally; source text = compiled tree is tied on every run by differential execution (schema AST -> Lean '
+              'compiler vs real compile_lvs: node pools compared; Lean loader + matcher on the Lean-compiled pool vs real Checker) and by '
+              'a source-level oracle transcribed from docs/src/lvs/lvs.rst.')
+LEVEL_NOTE = ('compile_correct is not proved (named compile_correct_partial): the compiler is modelled and tied by differential execution, '
+              'its output is proved well-formed, but that numbering / replication / node merging preserve the source semantics is not '
+              'proved. Proof is about the model; model=code is sampled.')
 TECHNIQUE = 'Lean 4 proof (simulation of the iterative search; soundness/completeness w.r.t. a path semantics) + model/implementation correspondence check + source-level oracle'
 DESIGN_REF = 'DESIGN.md section 7, C11; finding F8'
